@@ -145,6 +145,11 @@ val filter : ('a1 -> bool) -> 'a1 list -> 'a1 list
 
 val seq : nat -> nat -> nat list
 
+module Z :
+ sig
+  val eqb : z -> z -> bool
+ end
+
 type ascii =
 | Ascii of bool * bool * bool * bool * bool * bool * bool * bool
 
@@ -893,3 +898,72 @@ val nested_rets : stmt list -> nat
 val chk_C11_fn : fn_decl -> block -> bool
 
 val chk_C11 : program -> output -> bool
+
+type outcome =
+| Registers of ginstr
+| Reports of err
+
+val registered : outcome list -> ginstr list
+
+val types_of : ginstr list -> (string * sem_ty) list
+
+val consts_of : ginstr list -> (string * const_sem) list
+
+val funcs_of : ginstr list -> (string * func_sem) list
+
+val pass1 : string list -> program -> outcome list
+
+val spec_cval : cval -> cval_sem
+
+val spec_const : ident -> ast_ty -> cexpr -> const_sem
+
+val spec_fn_instr : fn_decl -> ginstr
+
+val missing_const : string list -> (binop * cval) list -> ident option
+
+val bad_param : (sem_ty -> bool) -> (ident * ast_ty) list -> ident option
+
+val const_outcome :
+  (sem_ty -> bool) -> string list -> ident -> ast_ty -> cexpr -> outcome
+
+val fn_outcome : (sem_ty -> bool) -> string list -> fn_decl -> outcome
+
+val is_reg : outcome -> bool
+
+val pass2 :
+  (sem_ty -> bool) -> string list -> string list -> program -> outcome list
+
+val spec_pass1 : program -> outcome list
+
+val spec_types : program -> (string * sem_ty) list
+
+val type_ok : (string * sem_ty) list -> sem_ty -> bool
+
+val spec_pass2 : program -> outcome list
+
+val spec_consts : program -> (string * const_sem) list
+
+val spec_funcs : program -> (string * func_sem) list
+
+val spec_gstack : program -> ginstr list
+
+val spec_fns : program -> fn_decl list
+
+val list_eqb : ('a1 -> 'a1 -> bool) -> 'a1 list -> 'a1 list -> bool
+
+val binop_eqb0 : binop -> binop -> bool
+
+val prim_val_eqb : prim_val -> prim_val -> bool
+
+val cval_sem_eqb : cval_sem -> cval_sem -> bool
+
+val const_sem_eqb : const_sem -> const_sem -> bool
+
+val func_sem_eqb : func_sem -> func_sem -> bool
+
+val ginstr_eqb : ginstr -> ginstr -> bool
+
+val table_eqb :
+  ('a1 -> 'a1 -> bool) -> (string * 'a1) list -> (string * 'a1) list -> bool
+
+val chk_C15 : program -> output -> bool
